@@ -72,6 +72,12 @@ def _find_defining_names(module_context, tree_name):
             # `as` is not bound in this context (`y` is), names spelled `x`
             # in the same context are unrelated.
             continue
+        if parent.type == 'argument' and parent.children[0] is name.tree_name \
+                and len(parent.children) > 1 and parent.children[1] == '=':
+            # The keyword of a call `f(x=...)` names a parameter of the callee,
+            # it is not bound in the calling context: names spelled `x` there
+            # are unrelated.
+            continue
         found_names |= set(_add_names_in_same_context(name.parent_context, name.string_name))
     return set(_resolve_names(found_names))
 
